@@ -9,7 +9,7 @@ import json
 
 from harness import core, lexer, tlc
 
-NEUTRAL = {"quoted-names", "placeholder", "boolean", "array", "interval", "string-value", "alias", "backslash-string", "json-value", "user-parameter"}
+NEUTRAL = {"quoted-names", "placeholder", "boolean", "array", "interval", "interval-dialect-kw", "string-value", "alias", "backslash-string", "json-value", "user-parameter"}
 JSONVAL = {"k": 'q"r', "p\\": ["it's", 1]}
 STRINGS = {"string-value": ["it's"], "backslash-string": ["C:\\new\\t%_x"], "json-value": [json.dumps(JSONVAL)]}
 BOOLMARK = "1"
@@ -32,6 +32,10 @@ def innermost(Qi, elem):
         return q.where(t.b == P.Array(2, 3))
     if elem == "interval":
         return q.where(t.b > fn.Now() - P.Interval(days=5))
+    if elem == "interval-dialect-kw":
+        # intervals constructed "for" a dialect (the constructor keyword): the rendering context still decides the literal form
+        from pypika_tortoise.enums import Dialects
+        return q.where(t.b > fn.Now() - P.Interval(days=5, dialect=Dialects.MYSQL)).where(t.c < fn.Now() + P.Interval(hours=3, dialect=Dialects.POSTGRESQL))
     if elem == "pagination":
         return q.orderby(t.a).limit(9).offset(4)
     if elem == "groupby-alias":
@@ -233,7 +237,7 @@ def run(tier: str) -> int:
                             what="renderings under two dialects differ beyond the documented conventions")
     for k in (0, len(meta) // 2, len(meta) - 1):
         rep.sample({"program": meta[k][0], "renderings": {x["d"] + "/" + x["mode"]: x["_sql"] for x in meta[k][1][:4]}})
-    rep.rule = (f"{len(meta)} programs = 9 dialect-sensitive elements x nesting constructs (10, at depth 1 and 2) rendered under 6 dialect classes, natively built and with "
+    rep.rule = (f"{len(meta)} programs = 13 dialect-sensitive elements x nesting constructs (14, at depth 1 and 2) rendered under 6 dialect classes, natively built and with "
                 "inner parts built by the generic classes; TLC evaluates OneDialect per rendering, mixed = native, and Norm-equality over all ordered dialect pairs")
     rep.exhaustive = True
     return rep.finish()
